@@ -8,7 +8,7 @@ CHECKS = [
            "symbolically executed from kernels.py; support, sign, knot ordering, dwdq = h dW/dr, gradient_h = dW/dh "
            "(symbolic derivative of the extracted kernel expression, exact normal form), gradient against dwdq's "
            "contract, exact normalisation integrals (sympy), and path-by-path equality with the mechanically extracted "
-           "c_kernels.pyx twins and wrappers. Full claim for C08 up to rounding.",
+           "c_kernels.pyx twins and wrappers. Full claim for C08 up to rounding. get_compiled_kernel builds the compiled class and wrapper from the attributes of the kernel object it is given, on every call.",
       note="float = R; exp/sqrt axiomatised; glue lemma 'piecewise derivative<=0 + ordered knots => non-increasing' is "
            "mathematics not code; sympy integration trusted; compiled twins compared as source text (Cython/gcc trusted); "
            "open finding: absolute 1e-12 coincidence band"),
@@ -18,7 +18,7 @@ CHECKS = [
            "proved) and the dispatch, equal-state clause for all 11, Galilean invariance for van_leer and exact, scaling "
            "for van_leer (floor inactive), success => p*>0 / tolerance / u* formula, vacuum => failure. Iterative "
            "solvers are cut at the loop head with relational invariants, so niter is unbounded. Run 2 is aligned with "
-           "run 1 by proved equalities (pyvc/relational.py).",
+           "run 1 by proved equalities (pyvc/relational.py). exact: on success p is the Newton iterate of pold for the solver's own pressure function.",
       note="float = R; sqrt/pow axiomatised; divisions and pow bases are hypotheses of the path ('when the result is "
            "finite'); NOT verified and not claimed: ducowicz reflection (solver time-out), exact scaling, hllc at "
            "contact speed exactly 0; open findings: van_leer absolute floor, exact niter-1 convergence, ducowicz tie"),
@@ -30,7 +30,7 @@ CHECKS += [
            "1..3): identity/dot/mat_mult/mat_vec_mult/augmented_matrix equal their definitions cell by cell with frames; "
            "gj_solve soundness by a ghost-solution cut-point invariant checked after every row operation (result = X on "
            "every path returning 0 without a zero diagonal); completeness witnesses executed exactly; linalg3.pyx det, "
-           "transform*, zero_matrix_case and eigen_decomposition (modular, against the assumed tred2+tql2 contract). tql2 (QL iteration) is not verified functionally, but its safety contract is proved for every symmetric tridiagonal input and any number of sweeps: the deflation scan stops at the sentinel e[n-1]=0, a sweep starts only with e[l]!=0, p+r!=0, e[n-1]=0 is an invariant of the sweep loop.",
+           "transform*, zero_matrix_case and eigen_decomposition (modular, against the assumed tred2+tql2 contract). tql2 (QL iteration) is not verified functionally, but its safety contract is proved for every symmetric tridiagonal input and any number of sweeps: the deflation scan stops at the sentinel e[n-1]=0, a sweep starts only with e[l]!=0, p+r!=0, e[n-1]=0 is an invariant of the sweep loop. tred2 (Householder) is proved for the five of its nine paths that have at most one active reflection (orthogonality, A V = V T, e[0]=0); the four two-reflection paths and the tql2 iteration are covered by a bounded native stand-in on 36 matrices.",
       note="float = R; sizes enumerated (the property's own finite range); NOT verified: tred2, tql2 (QL convergence), "
            "get_eigenvalues -> the eigen clause holds only modulo their assumed contract; gj_solve G3 conditional on no "
            "exactly-zero diagonal in back substitution; open findings: no row exchange, absolute pivot tolerance"),
@@ -41,7 +41,7 @@ CHECKS += [
       text="Proof over the reals for every pair of particles: relational contract on the real loop() text of the 17 listed "
            "momentum equations (pair (a,b) vs (b,a) on two-cell arrays with distinct indices): m_a da_a + m_b da_b = 0, "
            "XIJ x (m_a da_a) = 0 for the central-force terms, frame (no store to a source array or a foreign cell); the 3 "
-           "summation-density loops add a non-negative term and W(0,h) > 0 for every kernel. The pair-symbol formulas (C02) and the kernel-gradient contracts (C08, one dim per kernel) this proof assumes are re-proved in this check (dep.*).",
+           "summation-density loops add a non-negative term and W(0,h) > 0 for every kernel. The pair-symbol formulas (C02) and the kernel-gradient contracts (C08, one dim per kernel) this proof assumes are re-proved in this check (dep.*). The contract is on the increment of au/av/aw over an arbitrary accumulator, so assignment instead of accumulation fails; lemmas/PairSum.lean (thorough tier) replaces the assumed double-sum lemma.",
       note="float = R; kernel contracts of C08 and symbol formulas of C02 are assumed here (proved there); equation "
            "parameters arbitrary but shared; array-level constants wdeltap,n equal on both arrays; the summation over all "
            "pairs (antisymmetric terms over a symmetric neighbour relation vanish) is a mathematical glue lemma, not "
@@ -68,7 +68,7 @@ CHECKS += [
            "_dump_output_if_needed (dump decision, frame, only shortens, never past a requested time), and the solve "
            "loop cut with an inductive invariant (t<=tf, dt>0, t+dt<=tf; pre/step/post once per pass in order, t "
            "strictly increasing, exit => tf reached or max_steps, output first and last). Four genuine defects are open "
-           "known findings.",
+           "known findings. Solver._compute_timestep (C19) is re-proved here (dep.c19.*).",
       note="float = R (epsilon tests exact); frames of integrator/callbacks/dump_output assumed; sin axiom for the "
            "damping factor; termination only via the stated exit condition (arbitrary positive steps need not sum to tf "
            "without max_steps); 'never past' is proved for requested times pairwise > 2 eps apart and not exactly eps "
@@ -83,7 +83,7 @@ CHECKS += [
            "explicit d_/s_ name, a missing name needed through a precomputed symbol (closure computed independently from "
            "precomputed_symbols()), a misspelt dest/source => RuntimeError naming it; the same for every stage method of "
            "the shipped IntegratorStep subclasses on two arrays; the check runs before MegaGroup/code generation. The "
-           "implicit clause failed on the pinned tree and was repaired (fix: 7fb24fa). Group.get_array_names (union over equations and precomputed code blocks, cache) is proved; the closure of the precomputed symbols is C02's bounded check, re-run here (dep.c02.*).",
+           "implicit clause failed on the pinned tree and was repaired (fix: 7fb24fa). Group.get_array_names (union over equations and precomputed code blocks, cache) is proved; the closure of the precomputed symbols is C02's bounded check, re-run here (dep.c02.*). AccelerationEval.__init__ is executed on a group tree with sub-groups for every back end (every equation checked before the first MegaGroup); the checker is stateless across same-named classes.",
       note="getfullargspec = AST parameter names (MRO resolved); Group.get_array_names assumed to return the precomputed "
            "closure (validated natively for all 309 classes once, checked in C02); message contents checked only for the "
            "array-name and stepper-class cases; generated code itself not examined"),
@@ -111,7 +111,7 @@ CHECKS += [
            "h, d_/s_ not mixed, nothing else assigned); _set_kernel leaves no placeholder. Closure and order of "
            "_setup_precomputed/sort_precomputed: bounded exhaustive (1620 sets), labelled bounded, not counted. Kernel "
            "twins are C08's. The ordering/iteration/range/determinism contracts of C03 that 'in the documented order, over "
-           "the same neighbours' rests on are re-proved in this check (obligations dep.c03.*).",
+           "the same neighbours' rests on are re-proved in this check (obligations dep.c03.*). CythonGroup._get_code / get_py_initialize_code: every method is called on its own equation object with its parameters passed by name in order, reduce and py_initialize get (dst.array, t, dt).",
       note="the transpiler (compyle), mako glue, Cython and gcc are external: nothing is proved about the transpiled "
            "text, so 'values left in every property equal executing the Python methods' is claimed only for the symbol "
            "table and kernel substitution"),
@@ -124,7 +124,7 @@ CHECKS += [
            "Bounded (labelled, not counted): converged-condition join, MegaGroup._make_data ordering (7380 equation "
            "lists), emission order of the real do_group for all 2^10 guard valuations x 1-2 dests x 0-2 sources, nesting of "
            "the mega-group loop of compute() (388 group trees: every block under exactly its own condition(s) and loop). "
-           "One defect repaired (fix: a804f4e).",
+           "One defect repaired (fix: a804f4e). _compute_group_map and get_condition/pre/post_call: callbacks are emitted on the group's own self.groups[i](.data[j]) entry even when names coincide.",
       note="Cython semantics of the emitted lines and compyle get_parallel_range assumed; the meaning of emitted calls is "
            "not examined; bounded parts are enumerations of the real functions with stated bounds"),
 ]
@@ -144,7 +144,7 @@ CHECKS += [
       text="Slice: write-frame contract for every initialize/initialize_pair/loop/loop_all/post_loop of all 309 shipped "
            "equations (1827 stores, each proved by z3 to address s*d_idx+r, 0<=r<s, or listed as a known scatter write); "
            "Solver.reorder_particles re-orders every array then refreshes the NNPS and solve() does so before the initial "
-           "accelerations; every CPU --nnps branch passes cache and sort_gids=options.sort_gids. Re-proved here (dep.*): deterministic layout of the generated loops (C03), the sorted-neighbour segment and the sort_gids flag of every class (C01), spatially_order_particles (C17).",
+           "accelerations; every CPU --nnps branch passes cache and sort_gids=options.sort_gids. Re-proved here (dep.*): deterministic layout of the generated loops (C03), the sorted-neighbour segment and the sort_gids flag of every class (C01), spatially_order_particles (C17). New rule 'refresh': in every shipped one_timestep an evaluation with update_nnps=False is reached only when no paired stepper stage has written positions since the last refresh (schedule run twice); emission order (C03) and integrator schedules (C04) re-proved here.",
       note="OpenMP ownership of d_idx assumed; whole-run equality across algorithms/threads, bit-reproducibility and float "
            "summation order are NOT decided (no contract expresses them); races have no deterministic replay; 18 scatter "
            "stores in 5 places are open known findings"),
@@ -154,7 +154,7 @@ CHECKS += [
            "contracts (symbolic index sets) of InletBase.update, hybrid Inlet.update, OutletBase.update incl. inactive "
            "stages: extract I={ioid==0} to the fluid then shift exactly x/y/z[I] by +-L*n on inlet/ghost; extract "
            "O={ioid==1} to the outlet THEN remove the same O from the fluid, remove {ioid==2} from the outlet; evaluator "
-           "wiring (zone array maxdist=length, fluid array unbounded, real=False). The ParticleArray contracts the hand-over relies on (extract into an array that may hold ghosts, remove, align, add_particles: C06) are re-proved in this check (dep.c06.*).",
+           "wiring (zone array maxdist=length, fluid array unbounded, real=False). The ParticleArray contracts the hand-over relies on (extract into an array that may hold ghosts, remove, align, add_particles: C06) are re-proved in this check (dep.c06.*). Zone length: _update_inlet_outlet_info gives |n.(extent+dx)|, one layer has length dx.",
       note="io_eval.evaluate sets ioid per the IOEvaluate contract (compiled evaluation assumed); ParticleArray "
            "extract/remove/add contracts are C06's; count conservation follows from them, not re-proved here; mirror "
            "Outlet.update checked structurally (call order) only"),
@@ -174,7 +174,7 @@ CHECKS += [
            "stride and creates missing ones with the source's type/default/stride; add_property for every combination of "
            "{array empty or not} x {data or not} x {new or existing name}: default and stride records, length of the new "
            "array, and -- when the first particles arrive with the data -- every other property grown to n*its stride and "
-           "filled with its default. One defect repaired (fix: 86a774b).",
+           "filled with its default. One defect repaired (fix: 86a774b). copy_over_properties and set_to_zero act on every particle and whole stride blocks (loop invariants).",
       note="cyarray (resize/remove/c_align_array/copy_values/extend) contracts and numpy slice assignment assumed; Cython types "
            "dropped by the extraction; NOT verified: add_property's dtype conversions and its GPU branch, pickling, get/set, clone, "
            "copy_properties -> the record-list equivalence is claimed only for the operations listed"),
@@ -197,7 +197,7 @@ CHECKS += [
            "follows next[] to UINT_MAX; the octree / z-order / stratified-SFC versions copy exactly the first "
            "num_particles pids of the REQUESTED array; spatially_order_particles passes the same index list and each "
            "property's own stride to c_align_array of every property and re-aligns the array afterwards. One defect "
-           "repaired (fix: 994cb80, ghosts interleaved with real particles). Solver.reorder_particles (re-order every array, then update() whatever the domain: C05) is re-proved here (dep.c05.*); the search object's is_periodic flag is arbitrary.",
+           "repaired (fix: 994cb80, ghosts interleaved with real particles). Solver.reorder_particles (re-order every array, then update() whatever the domain: C05) is re-proved here (dep.c05.*); the search object's is_periodic flag is arbitrary. lemmas/PushFront.lean (thorough tier) proves that the head/next chains hold exactly the binned particles of their cell, each once.",
       note="glue lemma 'push-front lists built from empty lists are a partition, so the walk yields a permutation' and "
            "std::sort permuting the pid arrays are mathematics/assumed, not machine-checked; cyarray c_align_array and "
            "ParticleArray.align_particles are assumed (C06); 'queries after the following update are exact' is C01's "
